@@ -547,3 +547,41 @@ pub async fn socks5_udp_exchange(
     }
     Ok((seen, results))
 }
+
+// ---------------------------------------------------------------------------------------
+// TLS demultiplexer
+
+#[derive(Debug, Clone, PartialEq, Eq)]
+pub struct VConnectionMeta {
+    pub sni: String,
+    /// 1, 2, 3
+    pub protocol: u8,
+    /// tunnel | ping | speedtest | reverseproxy
+    pub channel: &'static str,
+    /// certificate identity: the path of the certificate chain that will be presented
+    pub cert_chain_path: String,
+    pub sni_auth_creds: Option<String>,
+    /// what `{:?}` of the meta prints (for the log scrubbing property)
+    pub debug: String,
+}
+
+/// `TlsDemux::select` of the demultiplexer currently installed in `core`
+pub fn tls_select(core: &Core, alpn: &[Vec<u8>], sni: &str) -> Result<VConnectionMeta, String> {
+    core.verif_tls_select(alpn, sni.to_string()).map(|m| VConnectionMeta {
+        debug: format!("{:?}", m),
+        sni: m.sni,
+        protocol: match m.protocol {
+            crate::tls_demultiplexer::Protocol::Http1 => 1,
+            crate::tls_demultiplexer::Protocol::Http2 => 2,
+            crate::tls_demultiplexer::Protocol::Http3 => 3,
+        },
+        channel: match m.channel {
+            net_utils::Channel::Tunnel => "tunnel",
+            net_utils::Channel::Ping => "ping",
+            net_utils::Channel::Speedtest => "speedtest",
+            net_utils::Channel::ReverseProxy => "reverseproxy",
+        },
+        cert_chain_path: m.cert_chain_path,
+        sni_auth_creds: m.sni_auth_creds,
+    })
+}
